@@ -42,7 +42,8 @@ func init() {
 		"non-trivial = distinct generated (tree, requests) with a request through >= 2 namespace levels that resolves"}
 	domains["load"] = domain{runLoad,
 		"include trees of 2..6 files (depth <= 3 quick / 4 thorough; diamonds, one file under several namespaces, " +
-			"cycles, missing/optional files, version/dotenv errors) with every include option and task attribute drawn " +
+			"cycles, missing/optional files, version/dotenv errors, one key used twice in tasks / includes / vars / env / " +
+			"task vars / include vars: must be the decode error) with every include option and task attribute drawn " +
 			"independently and small shared pools of task, namespace, alias and variable names; dependencies and task: " +
 			"targets are own names, ':'-prefixed root references (in the root file, at depth 1..3(4), inside and below " +
 			"flattened includes; each such tree is also checked by the root-reference monitor load.refs), references " +
@@ -457,8 +458,11 @@ func classifyErr(err error) string {
 	var cycp *errors.TaskfileCycleError
 	var conf *errors.TaskNameFlattenConflictError
 	var vc *errors.TaskfileVersionCheckError
+	var dec *errors.TaskfileDecodeError
 	class := "other"
 	switch {
+	case stderrors.As(err, &dec):
+		class = "decode"
 	case stderrors.As(err, &cyc), stderrors.As(err, &cycp):
 		class = "cycle"
 	case stderrors.As(err, &conf):
@@ -855,6 +859,12 @@ func evalLoad(d ldCase) (string, string) {
 	// self-check: what the repo's decoder reads back is the abstract file
 	for i := range d.Files {
 		f := &d.Files[i]
+		if f.hasDupKey() {
+			// a key used twice cannot be read back (decode error; before the fix the
+			// second definition silently replaced the first): the abstract file is the
+			// list of pairs as written
+			continue
+		}
 		tf, err := parseTaskfile(srcs[f.ID])
 		if err != nil {
 			return cl, fmt.Sprintf("selfcheck parse %d %s", f.ID, hx(err.Error()))
@@ -922,6 +932,39 @@ func evalLoad(d ldCase) (string, string) {
 	// C09: repeated loads of the same tree differ
 	sort.Strings(order)
 	return cl, fmt.Sprintf("nondet %d | %s | %s", len(order), order[0], order[1])
+}
+
+func dupVarKeys(vs []ldVar) bool {
+	seen := map[int]bool{}
+	for _, v := range vs {
+		if seen[v.K] {
+			return true
+		}
+		seen[v.K] = true
+	}
+	return false
+}
+
+// hasDupKey: some mapping the repo decodes by hand (tasks, includes, vars / env at file,
+// task and include level) has a key used twice.
+func (f *ldFile) hasDupKey() bool {
+	if dupVarKeys(f.Vars) || dupVarKeys(f.Env) {
+		return true
+	}
+	seen := map[string]bool{}
+	for _, t := range f.Tasks {
+		if seen["t"+t.Name] || dupVarKeys(t.Vars) {
+			return true
+		}
+		seen["t"+t.Name] = true
+	}
+	for _, inc := range f.Includes {
+		if seen["i"+inc.NS] || dupVarKeys(inc.Vars) {
+			return true
+		}
+		seen["i"+inc.NS] = true
+	}
+	return false
 }
 
 // noNormalise: the abstract file is in the normal form the serialiser can express
@@ -1103,6 +1146,7 @@ type ldGenCfg struct {
 	keyPool      int  // variable names are drawn from K1..K<keyPool>
 	pInject      int  // percent of trees with an injected load error (scaled)
 	refsMonitor  bool // also evaluate the root-reference monitor (property C08 only)
+	pDup         int  // percent of the error-free trees that get one key used twice (property C08 only)
 }
 
 var ldKeyPool = 5
@@ -1306,6 +1350,9 @@ func (c *Ctx) genTree(cfg ldGenCfg) ldCase {
 		gf[c.Rng.Intn(n)].f.Version = 0
 		note = "noversion"
 	}
+	if note == "" && cfg.pDup > 0 && c.chance(cfg.pDup) {
+		note = c.injectDupKey(gf)
+	}
 	if note != "" {
 		c.Hit("inject:" + note)
 	}
@@ -1314,6 +1361,63 @@ func (c *Ctx) genTree(cfg ldGenCfg) ldCase {
 		d.Files = append(d.Files, gf[i].f)
 	}
 	return d
+}
+
+// injectDupKey makes one mapping of one file use a key twice: a second task of the same
+// name (other commands), a second include statement under the same namespace (same or
+// another file), a second definition of a variable (file vars / env, task vars, include
+// vars).  Every file of the tree is reachable, so the load must end in the decode error.
+func (c *Ctx) injectDupKey(gf []*ldGenFile) string {
+	n := len(gf)
+	for tries := 0; tries < 40; tries++ {
+		f := &gf[c.Rng.Intn(n)].f
+		dupVar := func(vs []ldVar) []ldVar {
+			v := vs[c.Rng.Intn(len(vs))]
+			return append(vs, ldVar{v.K, 41 + c.Rng.Intn(9)})
+		}
+		switch c.Rng.Intn(6) {
+		case 0:
+			if len(f.Tasks) > 0 {
+				t := f.Tasks[c.Rng.Intn(len(f.Tasks))]
+				t2 := ldTask{Name: t.Name, Attrs: make([]int, nAttrs), Cmds: []ldCmd{{Sh: 60 + c.Rng.Intn(9)}}}
+				at := c.Rng.Intn(len(f.Tasks) + 1)
+				f.Tasks = append(f.Tasks[:at:at], append([]ldTask{t2}, f.Tasks[at:]...)...)
+				return "dupkey-tasks"
+			}
+		case 1:
+			if len(f.Includes) > 0 {
+				inc := f.Includes[c.Rng.Intn(len(f.Includes))]
+				other := f.Includes[c.Rng.Intn(len(f.Includes))]
+				f.Includes = append(f.Includes, ldInclude{NS: inc.NS, File: other.File, Advanced: c.chance(50)})
+				return "dupkey-includes"
+			}
+		case 2:
+			if len(f.Vars) > 0 {
+				f.Vars = dupVar(f.Vars)
+				return "dupkey-vars"
+			}
+		case 3:
+			if len(f.Env) > 0 {
+				f.Env = dupVar(f.Env)
+				return "dupkey-env"
+			}
+		case 4:
+			for i := range f.Tasks {
+				if len(f.Tasks[i].Vars) > 0 {
+					f.Tasks[i].Vars = dupVar(f.Tasks[i].Vars)
+					return "dupkey-task-vars"
+				}
+			}
+		case 5:
+			for i := range f.Includes {
+				if len(f.Includes[i].Vars) > 0 {
+					f.Includes[i].Vars = dupVar(f.Includes[i].Vars)
+					return "dupkey-include-vars"
+				}
+			}
+		}
+	}
+	return ""
 }
 
 // shapeKey identifies a tree up to values: include edges with options and task names.
@@ -1363,7 +1467,7 @@ func hasColonRef(d *ldCase) bool {
 
 func runLoad(c *Ctx) {
 	runLoadWith(c, c.Pick(260, 2500), c.Pick(20, 100),
-		ldGenCfg{maxDepth: c.Pick(3, 4), pRootParent: 0, pExtraParent: 22, pTwice: 18, keyPool: 5, pInject: 25, refsMonitor: true})
+		ldGenCfg{maxDepth: c.Pick(3, 4), pRootParent: 0, pExtraParent: 22, pTwice: 18, keyPool: 5, pInject: 25, refsMonitor: true, pDup: 12})
 }
 
 // runLoadDeep (property C09): the trees of domain load, without the C08 reference monitor.
